@@ -60,6 +60,10 @@ struct ReuseSpec {
     /// optional per-configuration sequence length (parallel to cfgs)
     #[serde(default)]
     maxlens: Vec<usize>,
+    /// optional per-configuration length of ONE long pseudo-random call sequence (0 = none):
+    /// anything that depends on HOW MANY calls a generator has served shows up here
+    #[serde(default)]
+    long_calls: Vec<usize>,
 }
 
 /// call alphabet: 1 = generate(), 2 = generate_from_arbitrary(x), 3 = ...(y), 4 = reset()
@@ -127,6 +131,28 @@ pub fn reuse(args: &[String]) -> i32 {
                     }
                     seqs = next;
                 }
+                let long = spec.long_calls.get(ci).copied().unwrap_or(0);
+                if long > 0 {
+                    let mut x = spec.seed ^ (ci as u64).wrapping_mul(0x9e3779b97f4a7c15);
+                    let s: Vec<u8> = (0..long).map(|_| {
+                        x ^= x << 13; x ^= x >> 7; x ^= x << 17;
+                        // mostly generation calls, a reset now and then
+                        match x % 16 { 0 => 4, k if k < 7 => 1, k if k < 12 => 2, _ => 3 }
+                    }).collect();
+                    let mut g = build_generator(cfg, Some(spec.seed));
+                    let mut calls = Vec::new();
+                    verif::start_recording(false);
+                    for &c in &s {
+                        let (res, d, n) = do_call(&mut g, c, &spec.x, &spec.y);
+                        calls.push(json!([res, d, n]));
+                    }
+                    let begins: Vec<Value> = verif::stop_recording()
+                        .iter()
+                        .filter(|e| e.phase == "begin")
+                        .map(|e| json!([e.out_len, e.pushed.len() + e.kept, e.memo_len, if e.proto_emitted {1} else {0}]))
+                        .collect();
+                    out.push(json!({"t": "seq", "cfg": ci, "P": cfg.p, "seq": s, "calls": calls, "res": [], "begins": begins}).to_string());
+                }
                 out
             })
         }).collect();
@@ -154,7 +180,17 @@ fn run_plain(job: &Job) -> (i64, String, usize) {
     let input = if job.mode == "bytes" { job_input(job) } else { Vec::new() };
     let r = catch_unwind(AssertUnwindSafe(|| {
         let mut g = build_generator(&job.cfg, if job.mode == "seed" { Some(job.seed) } else { None });
-        if job.mode == "seed" { g.generate() } else { g.generate_from_arbitrary(&input) }.map_err(|e| format!("{e}"))
+        for _ in 0..job.warm {
+            let _ = if job.mode == "seed" { g.generate() } else { g.generate_from_arbitrary(&input) };
+        }
+        if !job.force.is_empty() {
+            // forced opcode choices for the first body steps, free choices afterwards
+            verif::start_recording(false);
+            verif::set_forces(job.force.iter().filter_map(|(i, b)| op_by_byte(*b).map(|o| (*i, o))).collect());
+        }
+        let r = if job.mode == "seed" { g.generate() } else { g.generate_from_arbitrary(&input) }.map_err(|e| format!("{e}"));
+        if !job.force.is_empty() { let _ = verif::stop_recording(); }
+        r
     }));
     match r {
         Ok(Ok(b)) => (1, digest(&b), b.len()),
@@ -227,7 +263,7 @@ pub fn determinism(args: &[String]) -> i32 {
     let jf = format!("{}.jobs.json", args[1]);
     std::fs::write(&jf, serde_json::to_string(&serde_json::to_value(
         spec.jobs.iter().map(|j| json!({"id": j.id, "cfg": cfg_json(&j.cfg), "mode": j.mode, "seed": j.seed,
-            "bkind": j.bkind, "blen": j.blen, "bytes": j.bytes})).collect::<Vec<_>>()).unwrap()).unwrap()).unwrap();
+            "bkind": j.bkind, "blen": j.blen, "bytes": j.bytes, "force": j.force, "warm": j.warm})).collect::<Vec<_>>()).unwrap()).unwrap()).unwrap();
     for p in 0..spec.procs {
         // every child walks the grid in a different order (rotation, odd ones reversed), so
         // anything that depends on what the process generated before shows up as a difference
@@ -431,10 +467,14 @@ pub fn total(args: &[String]) -> i32 {
 // ---------------------------------------------------------------- opcode scan (C12)
 pub fn opscan(args: &[String]) -> i32 {
     #[derive(Deserialize)]
-    struct Spec { protocols: Vec<usize>, first_seed: u64, n: u64, threads: usize }
+    struct Spec { protocols: Vec<usize>, first_seed: u64, n: u64, threads: usize,
+                  /// (ext, buf) flag variants scanned one after the other IN THIS PROCESS, in this order
+                  #[serde(default)] variants: Vec<(bool, bool)> }
     let spec: Spec = serde_json::from_str(&std::fs::read_to_string(&args[0]).unwrap()).unwrap();
     std::panic::set_hook(Box::new(|_| {}));
     let mut out = std::io::BufWriter::new(std::fs::File::create(&args[1]).unwrap());
+    let variants: Vec<(bool, bool)> = if spec.variants.is_empty() { vec![(false, false)] } else { spec.variants.clone() };
+    for &(vext, vbuf) in &variants {
     for &p in &spec.protocols {
         // first seed per opcode byte, first framed / unframed seed
         let chunks: Vec<(u64, u64)> = (0..spec.threads as u64).map(|t| (t, spec.threads as u64)).collect();
@@ -447,7 +487,7 @@ pub fn opscan(args: &[String]) -> i32 {
                 while i < n {
                     let seed = first_seed + i;
                     tick(|| format!("opscan protocol {p} seed {seed}"));
-                    let cfg = Cfg { p, min: 60, max: 300, muts: vec![], mut_unsafe: false, rate: 0.1, rate_raw: false, rate_special: String::new(), unsafe_: false, ext: false, buf: false, bufsize: None, alt_builder: false };
+                    let cfg = Cfg { p, min: 60, max: 300, muts: vec![], mut_unsafe: false, rate: 0.1, rate_raw: false, rate_special: String::new(), unsafe_: false, ext: vext, buf: vbuf, bufsize: None, alt_builder: false };
                     let mut g = build_generator(&cfg, Some(seed));
                     verif::start_recording(false);
                     let r = catch_unwind(AssertUnwindSafe(|| g.generate()));
@@ -477,8 +517,9 @@ pub fn opscan(args: &[String]) -> i32 {
                 first.entry(k).and_modify(|x| if s < *x { *x = s }).or_insert(s);
             }
         }
-        writeln!(out, "{}", json!({"P": p, "first_seed": spec.first_seed, "n": spec.n,
+        writeln!(out, "{}", json!({"P": p, "first_seed": spec.first_seed, "n": spec.n, "ext": if vext {1} else {0}, "buf": if vbuf {1} else {0},
             "first": first.iter().map(|(k, s)| json!([k, s.to_string()])).collect::<Vec<_>>()})).unwrap();
+    }
     }
     0
 }
@@ -495,13 +536,21 @@ pub fn leak(args: &[String]) -> i32 {
         let mut g = build_generator(&c, Some(1));
         let _ = g.generate();
     }
+    // one generation on a joined worker thread: thread start-up allocations of the runtime are done
+    for p in [0usize, 5] {
+        let _ = std::thread::spawn(move || {
+            let c = Cfg { p, min: 10, max: 20, muts: vec![], mut_unsafe: false, rate: 0.1, rate_raw: false, rate_special: String::new(), unsafe_: false, ext: false, buf: false, bufsize: None, alt_builder: false };
+            let mut g = build_generator(&c, Some(1));
+            let _ = g.generate();
+        }).join();
+    }
     for job in &jobs {
         tick(|| format!("leak job {}", serde_json::to_string(job).unwrap_or_default()));
         let input = if job.mode == "bytes" { job_input(job) } else { Vec::new() };
         // measured run, no recorder
         let before = LIVE.load(Ordering::SeqCst);
         let mut mid = 0isize;
-        let res = catch_unwind(AssertUnwindSafe(|| {
+        let body = |mid: &mut isize| {
             let mut g = build_generator(&job.cfg, if job.mode == "seed" { Some(job.seed) } else { None });
             let mut ok = true;
             for _ in 0..=job.warm {
@@ -513,11 +562,19 @@ pub fn leak(args: &[String]) -> i32 {
                 // reset() must release everything too
                 g.reset();
                 g.output.shrink_to_fit();
-                mid = LIVE.load(Ordering::SeqCst);
+                *mid = LIVE.load(Ordering::SeqCst);
             }
             drop(g);
             ok
-        }));
+        };
+        let res = if job.thread {
+            // a short-lived worker thread: whatever it allocated must be gone once it has been joined
+            catch_unwind(AssertUnwindSafe(|| std::thread::scope(|sc| {
+                std::thread::Builder::new().stack_size(64 << 20).spawn_scoped(sc, || { let mut m = 0isize; body(&mut m) }).unwrap().join().unwrap_or(false)
+            })))
+        } else {
+            catch_unwind(AssertUnwindSafe(|| body(&mut mid)))
+        };
         let after = LIVE.load(Ordering::SeqCst);
         // second run of the same job with the recorder in cycle-tracking mode
         let mut g = build_generator(&job.cfg, if job.mode == "seed" { Some(job.seed) } else { None });
